@@ -178,7 +178,7 @@ def corpus():
     c.append(dict(claim="convert", conv="OsuToSM.convert", keys=4, base="objects", maps=[osu1], setmeta={},
                   history=[dict(op="stack_offset", map=0, list="hits", d=1)], shift=None, _expect="D11"))
     c.append(dict(claim="convert", conv="OsuToQua.convert", keys=4, base="objects", maps=[osu1], setmeta={},
-                  history=[], shift=None, _expect="D12 (and D08: open)"))
+                  history=[], shift=None, _expect="D12"))
     c.append(dict(claim="convert", conv="O2JToSM.convert_merge", keys=7, base="objects", maps=[o1, o2, o3],
                   setmeta=_SETMETA["o2j"], history=[], shift=None, _expect="D13"))
     c.append(dict(claim="convert", conv="QuaToOsu.convert", keys=4, base="objects", maps=[qua1], setmeta={},
@@ -706,7 +706,7 @@ def run(case, drv):
         k = 0
     model = drv.call("c08.convert", conv=conv, src=before, k=k)
     fresh_ok = d["labels_free"] or d["fresh"]
-    dom = bool(d["static_ok"] and fresh_ok and not d["list_default"])
+    dom = bool(d["static_ok"] and fresh_ok and d["src_ok"])
     nontrivial = (not d["fresh"]) or sum(1 for m in before["maps"] for _, f in m["lists"] if f["index"]) >= 2
     if not d["fresh"]:
         tags.append("labels-not-fresh")
@@ -737,13 +737,6 @@ def run(case, drv):
         if not ok:
             failing = sorted(kk for kk, vv in v.items() if not vv)
             detail = dict(failing=failing, verdict=v)
-            if failing == ["fields"]:
-                # is a known finding the only reason?
-                if d["list_default"]:
-                    v2 = drv.call("c08.spec", conv=conv, src=before, src_after=after, k=k,
-                                  out=mask_out(out, "keysounds", ("hits", "holds"), {"o": "list"}))["ok"]
-                    if all(v2.values()):
-                        kf = "D08"
         if not agree:
             detail["diff"] = diff
         if not (ok and agree):
